@@ -224,3 +224,15 @@ fn d24_lazy_duplicate_scoped_variable_error_is_deterministic() {
     }
     assert_eq!(seen.len(), 1, "{:#?}", seen);
 }
+
+#[test]
+fn d15_d16_match_without_full_match_node_is_an_error() {
+    for lazy in [false, true] {
+        // more captures on one node than tree-sitter keeps: the appended full-match capture is dropped
+        let r = run("x", "(identifier) @a @b @c { node n attr (n) a = @a, b = @b, c = @c }", lazy);
+        assert!(r.is_err(), "lazy={}", lazy);
+        // quantified root pattern on a source without such nodes: a match without captures
+        let r = run("1", "(identifier)* @_ids { node n }", lazy);
+        assert!(r.is_err(), "lazy={}", lazy);
+    }
+}
